@@ -7,6 +7,7 @@ import Driver.Util
     flg <t> <f>                   validatePathAttributeFlags(t,f) == ""           → 0/1
     dec <use2> <hex>              BGPUpdate.DecodeFromBytes                        → err=… attrs=… wd=… nlri=…
     val <cfg6> <use2> <hex>       decode, then ValidateUpdateMsg if class ≤ discard → d=… v=… attrs=…
+    (dec / val / act also accept `<use2> <ap4> <ap6> <hex>`: ADD-PATH receive for IPv4 / IPv6 unicast)
     act <cfg6> <use2> <hex>       whole receive path                              → install|discard|withdraw|reset …
   cfg6 = six 0/1 tokens: revised ebgp confed loopOk v4 v6.   hex `-` = empty.
 -/
@@ -42,49 +43,67 @@ def parseCfg (ts : List String) : Option (Cfg × List String) :=
   | a :: b :: c :: d :: e :: f :: rest => some (⟨b! a, b! b, b! c, b! d, b! e, b! f⟩, rest)
   | _ => none
 
+def showIds (l : List Nat) : String :=
+  if l.isEmpty then "-" else ".".intercalate (l.map toString)
+
+def showPaths (l : List (Bool × Nat)) : String :=
+  if l.isEmpty then "-" else ".".intercalate (l.map (fun (w, i) => (if w then "w" else "a") ++ toString i))
+
+def decLine (use2 ap4 ap6 : Bool) (h : String) (withIds : Bool) : String :=
+  match parse use2 (parseHex h) ap4 ap6 with
+  | none => "unsupported"
+  | some m =>
+    let d := decode m
+    match d.err with
+    | some ⟨c, sc, .reset⟩ => s!"err={c}/{sc}/4"
+    | _ =>
+      let base := s!"err={showErr d.err} attrs={showAttrs d.attrs} wd={d.wd} nlri={d.nlri}"
+      if withIds then base ++ s!" nid={showIds m.nlriIds} wid={showIds m.wdIds}" else base
+
+def valLine (c : Cfg) (use2 ap4 ap6 : Bool) (h : String) : String :=
+  match parse use2 (parseHex h) ap4 ap6 with
+  | none => "unsupported"
+  | some m =>
+    let d := decode m
+    let cls := match d.err with | none => 0 | some e => e.h.rank
+    if cls ≤ 1 then
+      let (ve, l) := validate c d.attrs d.wd d.nlri
+      s!"d={showErr d.err} v={showErr ve} attrs={showAttrs l}"
+    else s!"d={showErr d.err} v=skipped attrs={showAttrs d.attrs}"
+
+def actLine (c : Cfg) (use2 ap4 ap6 : Bool) (h : String) : String :=
+  match parse use2 (parseHex h) ap4 ap6 with
+  | none => "unsupported"
+  | some m =>
+    let d := decode m
+    -- AS4_PATH / AS4_AGGREGATOR are folded away by the 4-octet-AS conversion before delivery
+    let vis (l : List AttrObs) := (l.filter (fun a => a.typ != 17 && a.typ != 18)).map
+      (fun a => if a.typ == 2 then { a with flags := a.flags &&& 0xef } else a)
+    let eff := match effect c m, effectPaths c m with
+      | some e, some ps => s!" ann={e.announced} wdn={e.withdrawn} p={showPaths ps}"
+      | _, _ => ""
+    match sessionAction c m with
+    | .reset code sub => s!"reset {code} {sub}"
+    | .install l => s!"install {showAttrs (vis l)} wd={d.wd} nlri={d.nlri}" ++ eff
+    | .discardAttrs l => s!"discard {showAttrs (vis l)} wd={d.wd} nlri={d.nlri}" ++ eff
+    | .withdrawAll _ => s!"withdraw wd={d.wd} nlri={d.nlri}" ++ eff
+
+/-- optional ADD-PATH tokens `<ap4> <ap6>` between `<use2>` and `<hex>` -/
 def step (s : Unit) (ts : List String) : Unit × List String :=
   match ts with
   | ["cls", t] => (s, [toString (attrClass (nat! t)).rank])
   | ["flg", t, f] => (s, [if flagsOk (nat! t) (nat! f) then "1" else "0"])
-  | ["dec", u, h] =>
-    match parse (b! u) (parseHex h) with
-    | none => (s, ["unsupported"])
-    | some m =>
-      let d := decode m
-      match d.err with
-      | some ⟨c, sc, .reset⟩ => (s, [s!"err={c}/{sc}/4"])
-      | _ => (s, [s!"err={showErr d.err} attrs={showAttrs d.attrs} wd={d.wd} nlri={d.nlri}"])
+  | ["dec", u, h] => (s, [decLine (b! u) false false h false])
+  | ["dec", u, a4, a6, h] => (s, [decLine (b! u) (b! a4) (b! a6) h true])
   | "val" :: rest =>
     match parseCfg rest with
-    | some (c, [u, h]) =>
-      match parse (b! u) (parseHex h) with
-      | none => (s, ["unsupported"])
-      | some m =>
-        let d := decode m
-        let cls := match d.err with | none => 0 | some e => e.h.rank
-        if cls ≤ 1 then
-          let (ve, l) := validate c d.attrs d.wd d.nlri
-          (s, [s!"d={showErr d.err} v={showErr ve} attrs={showAttrs l}"])
-        else (s, [s!"d={showErr d.err} v=skipped attrs={showAttrs d.attrs}"])
+    | some (c, [u, h]) => (s, [valLine c (b! u) false false h])
+    | some (c, [u, a4, a6, h]) => (s, [valLine c (b! u) (b! a4) (b! a6) h])
     | _ => (s, ["bad-op"])
   | "act" :: rest =>
     match parseCfg rest with
-    | some (c, [u, h]) =>
-      match parse (b! u) (parseHex h) with
-      | none => (s, ["unsupported"])
-      | some m =>
-        let d := decode m
-        -- AS4_PATH / AS4_AGGREGATOR are folded away by the 4-octet-AS conversion before delivery
-        let vis (l : List AttrObs) := (l.filter (fun a => a.typ != 17 && a.typ != 18)).map
-          (fun a => if a.typ == 2 then { a with flags := a.flags &&& 0xef } else a)
-        let eff := match effect c m with
-          | some e => s!" ann={e.announced} wdn={e.withdrawn}"
-          | none => ""
-        match sessionAction c m with
-        | .reset code sub => (s, [s!"reset {code} {sub}"])
-        | .install l => (s, [s!"install {showAttrs (vis l)} wd={d.wd} nlri={d.nlri}" ++ eff])
-        | .discardAttrs l => (s, [s!"discard {showAttrs (vis l)} wd={d.wd} nlri={d.nlri}" ++ eff])
-        | .withdrawAll _ => (s, [s!"withdraw wd={d.wd} nlri={d.nlri}" ++ eff])
+    | some (c, [u, h]) => (s, [actLine c (b! u) false false h])
+    | some (c, [u, a4, a6, h]) => (s, [actLine c (b! u) (b! a4) (b! a6) h])
     | _ => (s, ["bad-op"])
   | [] => (s, [])
   | _ => (s, ["bad-op"])
